@@ -5,6 +5,7 @@ import . "vh/vhlib"
 func main() {
 	Main(map[string]CmdFn{
 		"gen": func(a []string) int { return RunGen(gens, a) },
+		"c05": c05,
 		"c06": c06,
 		"c16": c16,
 	})
